@@ -43,6 +43,7 @@ void join_all();                           // thread 0: simulated block until al
 void concurrent_end();
 void run_end(Result& r);                   // fills hash/steps/switches/realised/fired, frees logically freed blocks
 std::vector<uint32_t> thread_lengths();    // weighted hook counts per thread of the last run
+std::vector<uint32_t> thread_hook_counts(); // plain hook counts per thread of the last run
 
 // ----- from any sim thread -----
 int self();                                // sim thread id, -1 outside
@@ -75,6 +76,7 @@ size_t live_bytes(int* nblocks = nullptr);     // blocks in state live
 void set_alloc_callbacks(std::function<void(Block&)> on_alloc, std::function<void(Block&)> on_free);
 void name_region(const void* p, size_t n, uint64_t id);
 void ledger_set_tracking(bool on);             // track posix_memalign blocks (default on)
+void ledger_forget_all();                      // drop every ledger entry (blocks are left to the allocator); known-finding clean-up only
 
 // ----- assertion interception (C17 probes) -----
 extern thread_local jmp_buf* tls_assert_jmp;
